@@ -277,11 +277,15 @@ func RunInterleave(c *sim.Ctx, prop string) {
 		case porcupine.Unknown:
 			c.Probe("porcupine_inconclusive")
 		case porcupine.Illegal:
+			inconclusive := false
 			sig := "linearizability/" + compNames[comp]
 			if comp == cBuffer {
 				// is the history illegal only because of the accessors that read without the buffer's mutex?
-				if check(func(o sim.Op) bool { return o.K != "total" && o.K != "isbuffered" }) == porcupine.Ok {
+				switch check(func(o sim.Op) bool { return o.K != "total" && o.K != "isbuffered" }) {
+				case porcupine.Ok:
 					sig += "/total-or-isbuffered-observe-intermediate-state"
+				case porcupine.Unknown:
+					inconclusive = true // the second question timed out: no verdict at all for this history
 				}
 			}
 			if comp == cPool {
@@ -305,10 +309,21 @@ func RunInterleave(c *sim.Ctx, prop string) {
 					}
 				}
 				splitFlush = true
-				if writerOverlapsFlush && check(func(sim.Op) bool { return true }) == porcupine.Ok {
+				r2 := check(func(sim.Op) bool { return true })
+				splitFlush = false
+				if c.Replaying() {
+					fmt.Printf("  | pool history: one-step flush illegal; flush split per database: %v; a write overlaps a flush: %v\n", r2, writerOverlapsFlush)
+				}
+				switch {
+				case r2 == porcupine.Unknown:
+					inconclusive = true
+				case r2 == porcupine.Ok && writerOverlapsFlush:
 					sig += "/flush-not-atomic-across-databases"
 				}
-				splitFlush = false
+			}
+			if inconclusive {
+				c.Probe("porcupine_inconclusive")
+				return
 			}
 			c.Violation("linearizability", sig, "%s: the recorded history has no sequential explanation that respects the order of non-overlapping calls:\n%s", compNames[comp], fmtHistory(hist))
 		}
